@@ -311,10 +311,14 @@ Definition mcopy (st : state) (m n : nat) : state * out :=
 
 (** MultiTensor.clone: c = MultiTensor(self.shapes, self.semiring); c.copy_(self); return c *)
 Definition mclone (st : state) (m : nat) : state * out :=
-  let (st1, c) := new_obj st (OMT []) in
-  match mcopy st1 c m with
-  | (st2, ONone) => (st2, ORefs [c])
-  | (st2, o) => (st2, o)
+  match get_mt st m with
+  | None => (st, OErr)
+  | Some _ =>
+    let (st1, c) := new_obj st (OMT []) in
+    match mcopy st1 c m with
+    | (st2, ONone) => (st2, ORefs [c])
+    | (st2, o) => (st2, o)
+    end
   end.
 
 (** what the seeded change seeded/C18-d does instead:  c = MultiTensor(...); c += self
